@@ -107,6 +107,8 @@ impl DifficultyValues {
 
         let diff_objects =
             Self::create_difficulty_objects(difficulty, &scaling_factor, osu_object_iter);
+        #[cfg(rosu_pp_verif)]
+        crate::verif::view_probe::report_slice(0, 0, &diff_objects);
 
         let mut skills = OsuSkills::new(mods, &scaling_factor, &map_attrs, time_preempt);
 
